@@ -376,7 +376,7 @@ fn noise_net_systematic(out: &mut Vec<Vec<u64>>, thorough: bool) {
             }
         }
         // the scripted peer: valid identity, then every kind of damage and every length lie
-        let mut rng = Rng::new(0x22 + role);
+        let mut rng = Rng::derive(0x22 + role);
         let good = valid_identity(&mut rng);
         let b = ser(&good);
         let n = b.len() as u64 + if role == 0 { 96 } else { 64 };
@@ -568,7 +568,7 @@ fn mdns_response(peer: &str, texts: &[Vec<u8>]) -> DnsPacket {
     }
 }
 fn mdns_systematic(out: &mut Vec<Vec<u64>>, thorough: bool) {
-    let mut rng = Rng::new(0x24);
+    let mut rng = Rng::derive(0x24);
     let listen = listen_set(&mut rng);
     let user = MDNS_USER;
     let texts: Vec<Vec<u8>> = ADDR_TEXTS.iter().map(|t| dnsaddr(t)).collect();
@@ -744,7 +744,7 @@ pub fn systematic(out: &mut Vec<Vec<u64>>, thorough: bool) {
             out.push(c);
         }
     }
-    let mut rng = Rng::new(0x28);
+    let mut rng = Rng::derive(0x28);
     for _ in 0..4 {
         out.push(rt_mdns(&mut rng));
     }
